@@ -1,10 +1,32 @@
 import KawinV.Proto
-/-! driver verbs for C02 (stub: no verbs yet) -/
+import KawinV.Model.PSDUpdate
+/-! driver verbs for C02: state update → processed state → stored PSD (Float instance) -/
 namespace KawinV.Drv.C02
-open KawinV.Proto
+open KawinV.Proto KawinV.PBM KawinV.PSD KawinV.MB
+
+def fn (a : Array Float) : Nat → Float := fun i => a.getD i 0.0
+
+/-- psd.step bounds growth psd nucRate nucRadius dt kz minRadius size
+    → new state (Euler update with the corrected fluxes), processed state, stored PSD, and M0/M1/M3 of each -/
+def step : P String := do
+  let b ← flts; let g ← flts; let p ← flts; let nr ← flt; let rad ← flt; let dt ← flt
+  let kz ← int; let minR ← flt; let size ← flts
+  let n := p.length
+  let ba := b.toArray; let ga := g.toArray; let pa := p.toArray
+  let dR : Nat → Float := fun i => fn ba (i+1) - fn ba i
+  let nf0 := ((List.range (n+1)).map (netFlux n (fn ga) (fn pa) dR)).toArray
+  let nf := correctedFlux n dt (fn pa) (fn nf0)
+  let k := nucIndex n (fn ba) rad
+  let x' := (List.range n).map (eulerUpdate (fn pa) (dXdt nf k nr) dt)
+  -- x[:kz+1] = 0 with Python slice semantics: kz = -1 zeroes nothing
+  let xp := if kz < 0 then (List.zipWith (fun v r => if r < minR then 0 else v) x' size)
+            else processX kz.toNat minR x' size
+  let st := trunc xp
+  pure s!"{flist x'} {flist xp} {flist st} {fout (moment 0 xp size)} {fout (moment 1 xp size)} {fout (moment 3 xp size)}"
 
 def handle (verb : String) : Option (P String) :=
   match verb with
+  | "psd.step" => some step
   | _ => none
 
 end KawinV.Drv.C02
